@@ -90,6 +90,10 @@ func c12Judge(c *vCtx, r *fsmRun, nScript int, class string) {
 			return
 		}
 	}
+	if r.blockedRequests > 0 {
+		c.Violation("test-recording-request-blocks", class, fmt.Sprintf("%d test-recording request(s) did not return within 10 s: the request path stalls (frame processing and the service share that path)", r.blockedRequests))
+		return
+	}
 	for k := 0; k < 3; k++ {
 		if k == sinkConst && !cfg.Constant {
 			if n := len(collectOps(r.steps, k)); n > 0 {
